@@ -6,7 +6,9 @@ import os, subprocess, sys, tempfile, shutil
 args = sys.argv[1:]
 N = int(args[0]) if args and args[0].isdigit() else 200
 SIM = args[args.index("--sim") + 1] if "--sim" in args else "/verif/sim/target/checked/sim"
-PLAN = [("chain", ["--runs", "30000"]), ("batch", ["--runs", "15000"]), ("corrupt", ["--from", "180", "--runs", "60000"]), ("limits", ["--from", "6300", "--runs", "120"])]
+# the seeded cases of `limits` follow its fixed plan (quick tier = fixed + 400 runs; `check C20 quick` prints runs=0..N)
+LIMITS_FIXED = int(os.environ.get("LIMITS_FIXED", "15388"))
+PLAN = [("chain", ["--runs", "30000"]), ("batch", ["--runs", "15000"]), ("corrupt", ["--from", "180", "--runs", "60000"]), ("limits", ["--from", str(LIMITS_FIXED), "--runs", "150"])]
 tmp = tempfile.mkdtemp(prefix="verif-seeds-")
 bad = 0
 try:
